@@ -211,6 +211,7 @@ def _neg_norm(fn, body, item):
             continue
         has_add = False
         has_raise = False
+        len_args = []
         for m in A.walk_stmts(n.body):
             if isinstance(m, ast.Assign) and len(m.targets) == 1 and A.is_name(m.targets[0], item) \
                     and isinstance(m.value, ast.BinOp) and isinstance(m.value.op, ast.Add):
@@ -218,9 +219,11 @@ def _neg_norm(fn, body, item):
                 if any(A.is_name(s, item) for s in sides) and any(
                         isinstance(s, ast.Call) and A.dotted(s.func) == 'len' for s in sides):
                     has_add = True
+                    len_args.extend(s.args[0] for s in sides if isinstance(s, ast.Call) and A.dotted(s.func) == 'len' and s.args)
             if isinstance(m, ast.AugAssign) and A.is_name(m.target, item) and isinstance(m.op, ast.Add) \
                     and isinstance(m.value, ast.Call) and A.dotted(m.value.func) == 'len':
                 has_add = True
+                len_args.extend(m.value.args[:1])
             if isinstance(m, ast.If):
                 k2, ats2 = A.atoms(m.test)
                 for a in ats2:
@@ -231,8 +234,28 @@ def _neg_norm(fn, body, item):
                                 'IndexError' in A.src(x.exc) for x in A.walk_stmts(m.body)):
                             has_raise = True
         if has_add:
+            _neg_norm.len_args = len_args
             return has_add, has_raise, n
+    _neg_norm.len_args = []
     return False, False, None
+
+
+def own_length(cls, fn, len_args):
+    """the length a negative index is normalised against is the length of the dataset itself: len(self), or len(E)
+    where the class's __len__ is `return len(E)`. Returns the offending expression or None."""
+    lm = cls.resolve('__len__') if cls is not None else None
+    own = set()
+    if lm is not None and lm.is_function:
+        for r in flow.returns_of(lm.node):
+            if isinstance(r.value, ast.Call) and A.dotted(r.value.func) == 'len' and r.value.args:
+                own.add(A.src(r.value.args[0]))
+    selfname = fn.args.args[0].arg if fn.args.args else 'self'
+    for e in len_args:
+        e2 = flow.expand(e, fn)
+        if A.is_name(e2, selfname) or A.src(e2) in own:
+            continue
+        return e
+    return None
 
 
 def rule_n(ctx):
@@ -267,6 +290,11 @@ def rule_n(ctx):
             if ok and test is not None:
                 ok = all(getattr(x, 'lineno', 0) > test.lineno or any(
                     t is test for t in A.ancestors(x)) for x in arith)
+            wrong = own_length(cls, fn, _neg_norm.len_args) if has_add else None
+            if wrong is not None:
+                rep.ob('N', K.key(cls, '__getitem__', 'index-normalised-against-own-length'), False, wrong,
+                       'negative indices are normalised against len(%s), which is not the length of this dataset: '
+                       'ds[-1] is translated to another position' % A.short(wrong, 40))
             rep.ob('N', K.key(cls, '__getitem__', 'index-arith-normalised'), ok, arith[0],
                    '' if ok else 'the integer index enters arithmetic (%s) %s: negative or out-of-range indices are '
                    'mistranslated instead of wrapping / raising IndexError' % (
